@@ -55,10 +55,11 @@ type Storm struct {
 }
 
 type Scenario struct {
-	Kind  string `json:"kind"` // seq | storm
-	Steps []Step `json:"steps,omitempty"`
-	Storm *Storm `json:"storm,omitempty"`
-	Flood *Flood `json:"flood,omitempty"`
+	Kind    string   `json:"kind"` // seq | storm
+	Steps   []Step   `json:"steps,omitempty"`
+	Storm   *Storm   `json:"storm,omitempty"`
+	Flood   *Flood   `json:"flood,omitempty"`
+	Overlap *Overlap `json:"overlap,omitempty"`
 }
 
 func childMain() {
@@ -81,6 +82,9 @@ func childMain() {
 	wd := 20
 	if sc.Storm != nil && sc.Storm.WatchdogS > 0 {
 		wd = sc.Storm.WatchdogS
+	}
+	if sc.Overlap != nil && sc.Overlap.WatchdogS > 0 {
+		wd = sc.Overlap.WatchdogS
 	}
 	if sc.Flood != nil && sc.Flood.WatchdogS > 0 {
 		wd = sc.Flood.WatchdogS
@@ -110,6 +114,8 @@ func childMain() {
 			runSeq(w, sc.Steps, res)
 		case "storm":
 			runStorm(w, sc.Storm, res)
+		case "overlap":
+			runOverlap(w, sc.Overlap, res)
 		case "flood":
 			runFlood(w, sc.Flood, res)
 			return // runFlood builds the (projected) history itself
